@@ -639,7 +639,7 @@ pub fn run(cfg: &RunCfg) -> i32 {
             eprintln!("HARNESS ERROR: replay of {path} in a fresh process did not reproduce {class} [{shape}]");
             return 2;
         }
-        println!("  {} [{}]: {}", vv.class, vv.shape, vv.message);
+        println!("  {} [{}]: {} ({} worlds this run)", vv.class, vv.shape, vv.message, members.len());
         violation_lines.push(format!("VIOLATION property={prop} replay={path}"));
     }
     for (n, why) in &batch.crashed {
